@@ -268,6 +268,22 @@ def run(rep, pdb, tier):
                 det = "overwrites val[k] of the matching k and returns=%s; else rebuilds from to_triplets()+new triplet with the same shape=%s; no other early return=%s" % (okw, okb, only)
         rep.add("lookup/%s" % name, rule, ok, fn["body"], det, where=loc(fn["body"]))
     rep.add("lookup/agree", "get and insert use the same membership test and range", len(sig) == 2 and sig["get"] == sig["insert"], None, "", where="src/sparse.rs")
+    # ---- scale touches values only
+    fn = pdb.fn("%s::scale" % S)
+    rule = "scale multiplies every stored value val[k], k in 0..nonzero, and changes nothing else (row_index, col_start, nonzero and the shape stay as they are)"
+    if fn is None:
+        rep.missing("scale", rule, "not found")
+    else:
+        ctx = Ctx.for_fn(pdb, fn)
+        effs = effects(pdb, ctx)
+        muts = ctx.mutations.get(P(0), [])
+        ok = len(effs) == 1
+        if ok:
+            e = effs[0]
+            r = for_range(ctx, e.loops[0]) if len(e.loops) == 1 else None
+            ok = r is not None and e.kind == "upd" and e.op == "*=" and e.target == VAL and e.index == r[0] and e.value == P(1) and r[1:5] == (num(0), NNZ, False, False) and \
+                all(path == ("val",) and mode == "elem" for (path, mode), _ in muts)
+        rep.add("scale", rule, ok, fn["body"], "writes through self: %s" % [k for k, _ in muts], where=loc(fn["body"]))
     # ---- transpose shape / scatter
     check_transpose(rep, pdb, walks, "transpose-shape")
     rep.floor("csc-walk/", 7)
